@@ -12,7 +12,7 @@ RULE = (
     "opfython.math.general.opf_accuracy (KNN) and the instance's _normalized_cut (unsupervised) are wrapped to record (subgraph.best_k at call time, value). "
     "Oracle KNN: candidates are exactly 1..max_k in order, each recorded accuracy equals the C20 reference on the recorded labels/predictions, best_k == smallest k with the maximal value, "
     "and the final model is built with it (stored min/max density == reference pdf over the best_k smallest distances with the stored constant). "
-    "Oracle unsupervised: candidates are min_k, min_k+1, ... contiguous, stopping early only after a cut == 0.0, best_k == first arg-min, final adjacency length and stored density range consistent with best_k. "
+    "Oracle unsupervised: each recorded cut equals an independent evaluation of the normalised cut on the live sub-graph (all arcs incl. plateau arcs); candidates are min_k, min_k+1, ... contiguous, stopping early only after a cut == 0.0, best_k == first arg-min, final adjacency length and stored density range consistent with best_k. "
     "non-trivial: >= 2 candidates with >= 2 distinct criterion values and the best is not the first candidate; distinct by case hash"
 )
 ASSUMPTIONS = ["criterion values are taken as the library computes them (accuracy additionally re-computed from the recorded arguments with the C20 reference)"]
@@ -63,6 +63,8 @@ def check_case(case):
         ks = [c[0] for c in crit]
         vals = [c[1] for c in crit]
         require(all(c[0] == c[2] for c in crit), "unsup:best_k_tracks_candidate", "recorded %r" % crit)
+        for bk, v, k_, ref in crit:
+            require(abs(v - ref) <= 1e-9 * (1 + abs(ref)), "unsup:criterion_is_normalised_cut", lambda: "k=%d: cut routine returned %r, the normalised cut of the live clustering is %r" % (k_, v, ref))
         require(len(ks) >= 1 and ks == list(range(case["min_k"], case["min_k"] + len(ks))) and ks[-1] <= case["max_k"], "unsup:candidates_contiguous_from_min_k", "candidates %r, range [%d,%d]" % (ks, case["min_k"], case["max_k"]))
         if ks[-1] < case["max_k"]:
             require(vals[-1] == 0.0 or min(vals) == 0.0, "unsup:early_stop_only_after_zero_cut", lambda: "stopped at k=%d of %d with cuts %r" % (ks[-1], case["max_k"], vals))
